@@ -180,7 +180,7 @@ func weirdString(r *RNG, n int) string {
 		case 0:
 			b = append(b, byte(r.Intn(32))) // control
 		case 1:
-			b = append(b, '"', '\\', '/', '<', '>', '&', '\'')
+			b = append(b, '"', '\\', '/', '<', '>', '&', '\'', '`')
 		case 2:
 			b = append(b, byte(0x80+r.Intn(128))) // stray continuation / invalid lead
 		case 3:
@@ -218,6 +218,12 @@ func genC20(r *RNG, tier string) []Case {
 		for e := 0; e < ne; e++ {
 			ev := &gobinlog.StreamEvent{Type: gobinlog.StatementType(r.Intn(15)), Timestamp: int64(r.Intn(1 << 31))}
 			ev.Table = gobinlog.NewMysqlTableName(weirdString(r, r.Intn(8)), weirdString(r, r.Intn(8)))
+			if r.Chance(1, 4) {
+				// names from a small pool whose quoted / dotted renderings collide ("a`.`b"."c" vs "a"."b`.`c", "x.y"."z"
+				// vs "x"."y.z"): many transactions of one process share them, in any order
+				pool := []string{"a`.`b", "a", "b`.`c", "c", "x.y", "x", "y.z", "z", "", "`", "a`", "`b", "a.b", "b"}
+				ev.Table = gobinlog.NewMysqlTableName(pool[r.Intn(len(pool))], pool[r.Intn(len(pool))])
+			}
 			if r.Chance(1, 3) {
 				ev.Query = replication.Query{SQL: weirdString(r, 1+r.Intn(30))}
 			} else {
